@@ -239,6 +239,25 @@ def c01_candidates(P, uni, sibling_labels=('e', 'a', 'b', 'c')):
                     _blk(P, [Transaction([Input(o_ref, sa), Input(oref(r2), sb), Input(oref(third[0]), sc)], list(T0.outputs))], 'implsigned2-input-added', out)
                 except Exception:
                     pass
+    # two (three) outputs of ONE key spent together: the first input properly signed, a later one not (a check done once per
+    # key instead of once per input would pass it)
+    for kk in (K[0], K[1]):
+        mine = owned(U, kk)
+        if len(mine) >= 2:
+            tot = sum(U[r][0] for r in mine[:2])
+            good = mk_tx([(oref(mine[0]), kk), (oref(mine[1]), kk)], [(tot - 9, K[2])])
+            _blk(P, [good], 'two-outputs-of-one-key-both-signed', out, control=True)
+            g0, g1 = good.inputs
+            other_k = K[2]
+            forged = mk_tx([(oref(mine[0]), kk), (oref(mine[1]), other_k)], [(tot - 9, K[2])])
+            _blk(P, [forged], 'two-outputs-of-one-key-second-signed-by-another-key', out)
+            _blk(P, [Transaction([g0, Input(g1.output_reference, SECP256k1Signature(b'\x07' * 64))], list(good.outputs))],
+                 'two-outputs-of-one-key-second-signature-garbage', out)
+            _blk(P, [Transaction([g0, Input(g1.output_reference, g0.signature)], list(good.outputs))],
+                 'two-outputs-of-one-key-second-signature-copied-from-first', out) if g0.signature != g1.signature else None
+            _blk(P, [Transaction([Input(g0.output_reference, SECP256k1Signature(b'\x07' * 64)), g1], list(good.outputs))],
+                 'two-outputs-of-one-key-first-signature-garbage', out)
+            break
     Tother = mk_tx([(o_ref, K[0])], [(v - 5, K[2])])
     _blk(P, [Transaction([Input(o_ref, Tother.inputs[0].signature)], list(T0.outputs))], 'signature-of-another-tx', out)
     _blk(P, [Transaction([Input(o_ref, SignableEquivalent())], list(T0.outputs))], 'placeholder-signable-equivalent', out)
